@@ -338,14 +338,31 @@ def run_case(case):
                 others = [p for p in pool if p.atoms == src.atoms and (p.L is None) == (src.L is None)]
                 oth = others[i2 % len(others)]
                 how = ["join", "plus", "mdjoin"][r % 3]
-                tag = "join-" + how
+                discard = bool(flag) and how != "plus"
+                if discard and (r // 3) % 2 and src.t.n_frames >= 1:
+                    # make the documented overlap certain: the other operand starts with a copy of this one's last frame
+                    key = [src.t.n_frames - 1] + list(range(min(src.t.n_frames, 2)))
+                    oth = src.model_index(key)
+                    oth.t = src.t[key]
+                tag = "join-" + how + ("-discard" if discard else "")
                 if how == "join":
-                    out = src.t.join(oth.t)
+                    out = src.t.join(oth.t, discard_overlapping_frames=True) if discard else src.t.join(oth.t)
                 elif how == "plus":
                     out = src.t + oth.t
                 else:
-                    out = md.join([src.t, oth.t, src.t])
+                    out = md.join([src.t, oth.t, src.t], discard_overlapping_frames=True) if discard else md.join([src.t, oth.t, src.t])
                 parts = [src, oth] + ([src] if how == "mdjoin" else [])
+                if discard:
+                    # documented rule: the last frame of a piece is dropped when every coordinate of it lies within 2e-3 nm of
+                    # the first frame of the next piece
+                    trimmed = []
+                    for k, p_ in enumerate(parts):
+                        if k + 1 < len(parts) and len(p_.xyz) and len(parts[k + 1].xyz) and \
+                                np.all(np.abs(parts[k + 1].xyz[0] - p_.xyz[-1]) < 2e-3):
+                            p_ = p_.model_index(slice(0, len(p_.xyz) - 1))
+                            labels.append("join-discarded-overlap")
+                        trimmed.append(p_)
+                    parts = trimmed
                 new = _copy.copy(src)
                 new.xyz = np.concatenate([p.xyz for p in parts])
                 new.time = np.concatenate([p.time for p in parts])
